@@ -85,7 +85,90 @@ def templates(rng):
           ("rsub-op", lambda m, x: 3.0 - x, a2),
           ("neg-op", lambda m, x: -x, a2),
           ("floor", lambda m, x: m.floor(x / 2), a2)]
-    return T
+    # option-bearing forms of the re-implemented wrappers: the value must be NumPy's, or the call must raise
+    m3 = arr(rng, (2, 3))
+    O = [("array-ndmin2", lambda m, x: m.array([x[0], 2 * x[1], 1.0], ndmin=2), v3),
+         ("array-ndmin1", lambda m, x: m.array([x[0], x[1]], ndmin=1), v3),
+         ("array-nested-ndmin3", lambda m, x: m.array([[x[0], 1.0], [x[1], 2.0]], ndmin=3), v3),
+         ("array-of-arrays-ndmin3", lambda m, x: m.array([x, w3], ndmin=3), v3),
+         ("array-plain-ndmin2", lambda m, x: m.array(x, ndmin=2), v3),
+         ("array-dtype32", lambda m, x: m.array([x[0], x[1]], dtype=onp.float32), v3),
+         ("array-dtype-positional", lambda m, x: m.array([x[0], x[1]], onp.float64), v3),
+         ("array-copy", lambda m, x: m.array([x, w3], copy=True), v3),
+         ("array-orderF", lambda m, x: m.array([x, w3], order="F"), v3),
+         ("array-tuple", lambda m, x: m.array((x[0], (x[1]), 3.0)), v3),
+         ("array-tuple-nested", lambda m, x: m.array(((x[0], 1.0), (2.0, x[2]))), v3),
+         ("array-empty-list-mix", lambda m, x: m.array([x[:0], x[:0]]), v3),
+         ("concatenate-axisNone", lambda m, x: m.concatenate([x, m3], axis=None), m3 * 2),
+         ("concatenate-tuple-axis-kw", lambda m, x: m.concatenate((x, m3), axis=-2), m3 * 2),
+         ("concatenate-scalars-in-list", lambda m, x: m.concatenate([x, [1.0, 2.0]]), v3),
+         ("vstack-scalars", lambda m, x: m.vstack([x[0], x[1], 3.0]), v3),
+         ("hstack-scalars", lambda m, x: m.hstack([x[0], x[1], 3.0]), v3),
+         ("hstack-mixed-rank", lambda m, x: m.hstack([x, 4.0]), v3),
+         ("column_stack-scalars", lambda m, x: m.column_stack([x[0], x[1]]), v3),
+         ("column_stack-mixed", lambda m, x: m.column_stack([x, m.stack([w3, x], axis=1)]), v3),
+         ("row_stack", lambda m, x: (m.row_stack if hasattr(m, "row_stack") else m.vstack)([x, w3]), v3),
+         # (dstack/block/meshgrid take a plain list and are not re-implemented: a list holding traced values is
+         #  documented as opaque to autograd, so they are outside the property)
+         ("stack-axis-2", lambda m, x: m.stack([x, m3], axis=2), m3 * 2),
+         ("stack-axis--3", lambda m, x: m.stack([x, m3], axis=-3), m3 * 2),
+         ("stack-lists", lambda m, x: m.stack([[x[0], 1.0], [2.0, x[1]]]), v3),
+         ("stack-scalars", lambda m, x: m.stack([x[0], x[1], 1.0]), v3),
+         ("append-scalar", lambda m, x: m.append(x, 5.0), v3),
+         ("append-2d-flat", lambda m, x: m.append(x, [1.0, 2.0]), m3),
+         ("append-axis1", lambda m, x: m.append(x, m3[:, :1], axis=1), m3 * 2),
+         ("append-axis--1", lambda m, x: m.append(x, m3, axis=-1), m3 * 2),
+         ("append-list-first", lambda m, x: m.append([1.0, 2.0], x), v3),
+         ("select-default-0", lambda m, x: m.select([x > 1, x < -1], [x, -x]), v3),
+         ("select-2d", lambda m, x: m.select([x > 0, x <= 0], [x * 2, x * x], default=-1.5), m3),
+         ("select-tuple-args", lambda m, x: m.select((x > 0,), (x,), 3.0), v3),
+         ("select-broadcast", lambda m, x: m.select([x > 0], [x[:1] * onp.ones(3)], default=0.5), v3),
+         ("r_-scalars", lambda m, x: m.r_[x[0], 2.0, x[1]], v3),
+         ("r_-slice", lambda m, x: m.r_[x, 0:3], v3),
+         ("r_-string-r", lambda m, x: m.r_["0,2", x, w3], v3),
+         ("r_-string-1", lambda m, x: m.r_["1,2,0", x, w3], v3),
+         ("r_-2d-axis", lambda m, x: m.r_["-1", x, m3], m3 * 2),
+         ("c_-2d", lambda m, x: m.c_[x, m3], m3 * 2),
+         ("c_-scalars", lambda m, x: m.c_[x[0], x[1]], v3),
+         ("reshape-order-F", lambda m, x: x.reshape((3, 2), order="F"), m3),
+         ("reshape-varargs", lambda m, x: x.reshape(3, 2), m3),
+         ("reshape-fn-order-F", lambda m, x: m.reshape(x, (3, 2), order="F"), m3),
+         ("ravel-method-order-F", lambda m, x: x.ravel(order="F"), m3),
+         ("flatten-method", lambda m, x: x.flatten(), m3),
+         ("squeeze-method", lambda m, x: x[None].squeeze(0), m3),
+         ("swapaxes-method", lambda m, x: x.swapaxes(0, 1), m3),
+         ("transpose-method-args", lambda m, x: x.transpose(1, 0), m3),
+         ("sum-method-kw", lambda m, x: x.sum(axis=1, keepdims=True), m3),
+         ("mean-method", lambda m, x: x.mean(0), m3),
+         ("max-method", lambda m, x: x.max(axis=1), m3),
+         ("cumsum-method", lambda m, x: x.cumsum(axis=1), m3),
+         ("clip-method", lambda m, x: x.clip(-1.0, 2.0), m3),
+         ("dot-method", lambda m, x: x.dot(m3.T), m3 * 2),
+         ("diagonal-method", lambda m, x: x.diagonal(), m3),
+         ("repeat-method", lambda m, x: x.repeat(2, axis=1), m3),
+         ("take-method", lambda m, x: x.take([0, 2], axis=1), m3),
+         ("std-method", lambda m, x: x.std(axis=0), m3 * 2 + onp.arange(6.0).reshape(2, 3)),
+         ("len-shape-ndim-size", lambda m, x: m.array([float(len(x)), float(x.ndim), float(x.size), float(x.shape[-1])]), m3),
+         ("iter", lambda m, x: m.stack([row * 2 for row in x]), m3),
+         ("abs-builtin", lambda m, x: abs(x), m3),
+         ("divmod-ops", lambda m, x: (x % 3.0) + (x // 2.0 if False else x / 2.0), m3),
+         ("comparisons", lambda m, x: m.where((x >= 0) & (x != 2), x, -x), m3),
+         ("atleast_3d", lambda m, x: m.atleast_3d(x), m3),
+         ("array_split", lambda m, x: m.array_split(x, 2, axis=1), m3),
+         ("hsplit", lambda m, x: m.hsplit(x, 3), m3),
+         ("vsplit", lambda m, x: m.vsplit(x, 2), m3),
+         ("moveaxis", lambda m, x: m.moveaxis(x, 0, -1), m3),
+         ("full_like", lambda m, x: m.full_like(x, 3.5), m3),
+         ("zeros_like", lambda m, x: m.zeros_like(x), m3),
+         ("ones_like", lambda m, x: m.ones_like(x), m3),
+         ("full", lambda m, x: m.full((2, 2), x[0]), v3),
+         ("einsum", lambda m, x: m.einsum("ij,kj->ik", x, m3), m3 * 2),
+         ("sort", lambda m, x: m.sort(x), v3 + onp.array([0.0, 0.25, 0.5])),
+         ("linalg-norm", lambda m, x: m.linalg.norm(x + 0.5), m3),
+         ("fft", lambda m, x: m.fft.fft(x), v3),
+         ("var-ddof", lambda m, x: m.var(x, axis=1, ddof=1), m3 * 2 + onp.arange(6.0).reshape(2, 3))]
+    T += [(n_, f_, x_, True) for n_, f_, x_ in O]
+    return [t if len(t) == 4 else t + (False,) for t in T]
 
 
 def main():
@@ -94,20 +177,41 @@ def main():
     out = {"n": 0, "keys": [], "samples": [], "bad": [], "dist": {}}
     reps = 6 if cfg.get("tier") == "thorough" else 2
     for rep in range(reps):
-        for name, f, x0 in templates(rng):
+        for name, f, x0, optional in templates(rng):
             out["n"] += 1
             out["keys"].append("%s/%s" % (name, x0.shape))
             out["dist"]["wrapper-cases"] = out["dist"].get("wrapper-cases", 0) + 1
             x_before = x0.copy()
             try:
                 expected = f(onp, x0)
-                plain = f(anp, x0)
-                vjp, under_rev = make_vjp(lambda x: f(anp, x))(x0)
-                try:
-                    under_fwd = make_jvp(lambda x: f(anp, x))(x0)(onp.ones_like(x0))[0]
-                except NotImplementedError:      # no forward rule: raising is allowed
-                    under_fwd = expected
-                gr = vjp(plain if not isinstance(plain, (list, tuple)) else type(plain)(plain))
+                if optional:
+                    # an option the wrapper does not support may be refused loudly, at any stage
+                    loud = (NotImplementedError, TypeError, ValueError, AssertionError, IndexError, KeyError, AttributeError)
+                    try:
+                        plain = f(anp, x0)
+                    except loud:
+                        out["dist"]["option-refused"] = out["dist"].get("option-refused", 0) + 1
+                        continue
+                    try:
+                        vjp, under_rev = make_vjp(lambda x: f(anp, x))(x0)
+                    except loud:
+                        vjp, under_rev = None, expected
+                    try:
+                        under_fwd = make_jvp(lambda x: f(anp, x))(x0)(onp.ones_like(x0))[0]
+                    except loud:
+                        under_fwd = expected
+                    try:
+                        gr = vjp(plain if not isinstance(plain, (list, tuple)) else type(plain)(plain)) if vjp else None
+                    except loud:
+                        gr = None
+                else:
+                    plain = f(anp, x0)
+                    vjp, under_rev = make_vjp(lambda x: f(anp, x))(x0)
+                    try:
+                        under_fwd = make_jvp(lambda x: f(anp, x))(x0)(onp.ones_like(x0))[0]
+                    except NotImplementedError:      # no forward rule: raising is allowed
+                        under_fwd = expected
+                    gr = vjp(plain if not isinstance(plain, (list, tuple)) else type(plain)(plain))
                 probs = []
                 if not same(plain, expected):
                     probs.append("plain value differs from NumPy")
